@@ -234,6 +234,19 @@ pub fn honest<S: MlDsa>(seed: u64, nseeds: usize, nmsgs: usize, out: &mut Out) {
                     // a raw M' that is no external format (first byte 2): issued and accepted through the internal interface only
                     if mi == 0 { let raw = [&[2u8][..], &m[..m.len().min(64)]].concat(); if let Some(s_raw) = w.sign_internal(hsk, &raw, &d2) { let _ = w.verify_internal(pks[k % 4], &raw, &s_raw); let _ = w.verify(pks[k % 4], &raw, b"", "pure", &s_raw); } }
                 }
+                // the SAME buffer with other contents (a caller re-using its message buffer): results are functions of the bytes,
+                // not of where they live - flipped in place it must not verify, restored it must, and signing it gives another string
+                if m.len() >= 1024 {
+                    let mut buf = m.clone();
+                    let _ = w.verify(pks[k % 4], &buf, &ctx, mode, &sig);
+                    let pos = p.below(buf.len() as u64) as usize;
+                    buf[pos] ^= 0x10;
+                    let _ = w.verify(pks[k % 4], &buf, &ctx, mode, &sig);
+                    let _ = w.sign(hsk, &buf, &ctx, mode, &draw, Fault::None);
+                    buf[pos] ^= 0x10;
+                    let _ = w.verify(pks[k % 4], &buf, &ctx, mode, &sig);
+                    let _ = w.sign(hsk, &buf, &ctx, mode, &draw, Fault::None);
+                }
                 // and a few things that must not verify
                 if k == mi % 4 {
                     let mut s2 = sig.clone(); let pos = p.below(s2.len().max(1) as u64) as usize; if !s2.is_empty() { s2[pos] ^= 1 << p.below(8); }
